@@ -109,6 +109,7 @@ PROPS['C19'] = {
     'theorems': [
         thm('EmmetProps.C19_value', 'every printed expression tree (arbitrary blanks, literals 12 / 1.5 / .5, unary signs, parentheses, five operators) whose grouping is the documented one: evaluate(render e) = value of e in exact arithmetic; ZeroDivisionError is the only error; parity and stack underflow never fire'),
         thm('EmmetProps.C19_total', 'EVERY string: evaluate ends with a value, the parse error or ZeroDivisionError; no other exception (no IndexError from the operand stack), fuel suffices'),
+        thm('EmmetProps.C19_extract', 'EVERY text, every position inside it, every option set: extract() returns nothing or a range start <= end <= len ending at the look-ahead adjusted position, made of digits, dots, operators, parentheses and (if allowed) white space only, with balanced parentheses'),
         thm('EmmetProps.C19_arith_add', 'model rationals = Mathlib Q: add'), thm('EmmetProps.C19_arith_sub', 'sub'), thm('EmmetProps.C19_arith_mul', 'mul'),
         thm('EmmetProps.C19_arith_neg', 'neg'), thm('EmmetProps.C19_arith_floor', 'integer division is the floor of the quotient'),
         thm('M.Q.div_toRat', 'div (non-zero divisor)'),
@@ -116,9 +117,9 @@ PROPS['C19'] = {
     ],
     'domains': ['dom_math'],
     'rule': 'all strings up to length 4 (quick) / 5 (thorough) over `1 2 . + - * / \\ ( ) space`, random longer strings incl. foreign characters (error clause), and expressions generated from the stratified grammar with exact expected values (Fractions; integer division only between integers so that the double floor is exact); extract() at every position of every text; non-trivial = parses into >= 2 tokens; distinct = distinct text',
-    'explanation': 'The exact clause is a theorem end to end (lexing, ordering, evaluation) over exact rationals, tied to Mathlib Q. The implementation computes in IEEE doubles: values are compared within 1e-9 relative. The rejection side is a theorem too: for EVERY string the evaluator model ends with a value, the parse error or ZeroDivisionError (the proof attempt exposed the IndexError repaired as F35). extract() is decided by the oracle on the implementation (not modelled). Integer division between decimal fractions follows IEEE doubles (known finding F32).',
-    'level_text': 'Lean 4 theorem: for every well-formed printed expression with the documented grouping the evaluator model returns the exact arithmetic value (proved end to end: lexer, shunting-yard ordering, RPN evaluation; model rationals proved equal to Mathlib Q). Second theorem: for EVERY string the evaluator model raises nothing but the parse error and ZeroDivisionError. Floating point and extract() are partial: correspondence + oracle.',
-    'level_note': 'Trusted: Lean kernel + standard axioms; hand-written model of parser.py and evaluate (0 differences in RPN token lists, priorities, error classes and positions on every generated input); IEEE rounding is not modelled (values within 1e-9; a floor whose double quotient falls on the other side of an integer is known finding F32).',
+    'explanation': 'The exact clause is a theorem end to end (lexing, ordering, evaluation) over exact rationals, tied to Mathlib Q. The implementation computes in IEEE doubles: values are compared within 1e-9 relative. The rejection side is a theorem too: for EVERY string the evaluator model ends with a value, the parse error or ZeroDivisionError (the proof attempt exposed the IndexError repaired as F35). extract() is modelled (0 differences with the code on every explored text x position x 4 option sets) and its clause is a theorem for all texts, positions inside the text and options. Integer division between decimal fractions follows IEEE doubles (known finding F32).',
+    'level_text': 'Lean 4 theorem: for every well-formed printed expression with the documented grouping the evaluator model returns the exact arithmetic value (proved end to end: lexer, shunting-yard ordering, RPN evaluation; model rationals proved equal to Mathlib Q). Second theorem: for EVERY string the evaluator model raises nothing but the parse error and ZeroDivisionError. Third theorem: the extract() clause for all texts, positions and options. Floating point is partial: correspondence + oracle.',
+    'level_note': 'Trusted: Lean kernel + standard axioms; hand-written model of parser.py, evaluate and extract.py (0 differences in RPN token lists, priorities, error classes and positions on every generated input); IEEE rounding is not modelled (values within 1e-9; a floor whose double quotient falls on the other side of an integer is known finding F32).',
     'assumptions': [CORR, 'double arithmetic agrees with exact arithmetic within 1e-9 relative on the generated expressions', 'numbers have at most 15 digits'],
     'trusted_extra': ['Mathlib (Data.Rat.Floor, Algebra.Order.Field.Rat, FieldSimp, Ring) for the Q-equals-rationals lemmas only'],
 }
